@@ -111,7 +111,11 @@ pub fn gen_type(r: &mut Rng, depth: usize) -> String {
         };
     }
     let d = depth - 1;
-    match r.below(24) {
+    match r.below(27) {
+        // a qualified path without `as Trait`
+        24 => format!("<{}>::Out", gen_type(r, d)),
+        25 => format!("<Bar<{}, {}>>::Item<{}>", r.pick(LTS), gen_type(r, d), r.pick(LTS)),
+        26 => format!("{}::Assoc<{}>", r.pick(PARAMS), gen_type(r, d)),
         0 => format!("Vec<{}>", gen_type(r, d)),
         1 => format!("HashMap<{}, {}>", gen_type(r, d), gen_type(r, d)),
         2 => format!("&{} {}", r.pick(LTS), gen_type(r, d)),
@@ -274,13 +278,20 @@ pub fn run_b(seed: u64, n: usize, out: &mut Out) {
             gen_list.push("const N: usize".into());
         }
         let where_clause = if r.chance(1, 3) { format!(" where {}: Default", params[0]) } else { String::new() };
+        // at most one `flatten` field per declaration (more is a derive-time error); a flatten field is
+        // parsed, so its type counts for the bounds
+        let flat_at = if r.chance(1, 3) { Some(r.below(3)) } else { None };
         let field = |r: &mut Rng, k: usize| -> String {
             let t = gen_type(r, 2);
-            let skip = match r.below(5) {
-                0 => "#[darling(skip)] ",
-                1 => "#[darling(skip = true)] ",
-                2 => "#[darling(skip = false)] ",
-                _ => "",
+            let skip = if flat_at == Some(k) {
+                "#[darling(flatten)] "
+            } else {
+                match r.below(5) {
+                    0 => "#[darling(skip)] ",
+                    1 => "#[darling(skip = true)] ",
+                    2 => "#[darling(skip = false)] ",
+                    _ => "",
+                }
             };
             format!("{}f{}: {}", skip, k, t)
         };
